@@ -7,7 +7,7 @@ from .. import rules_request as Q
 
 EXPLANATION = (
     "Static analysis of writer/reader agreement - necessary structural conditions of the round trip, not the "
-    "round trip itself. W-R1: writer and reader tag tables and child order agree for all classes (S-R1 names, S-R4 "
+    "round trip itself. W-R1: writer and reader tag tables and child order agree for all classes (S-R1 names, S-R2 every class found under its tag, S-R4 "
     "list contiguity, S-R5 list kinds, M1..M5 mechanism). W-R2: every abstract element shape for which the "
     "end-tag-less writer omits the end tag is one the reader closes by itself (guards of both sides evaluated over "
     "the 4 shapes). W-R3: element text is escaped on the hand-written wire form and only with entities the reader "
@@ -22,10 +22,11 @@ ASSUMPTIONS = ["ET.tostring(method='html') writes start tag, escaped text, child
 def run(project, rep):
     schema = Schema(project)
     schema.check_floors()
-    rep.rule("W-R1", "writer/reader tag tables and child order agree (S-R1, S-R4, S-R5, M1..M5)")
+    rep.rule("W-R1", "writer/reader tag tables and child order agree (S-R1, S-R2, S-R4, S-R5, M1..M5)")
     for m_ in (S.m1_from_etree, S.m2_update_args, S.m3_to_etree, S.m4_apply_args, S.m5_validate_args):
         rep.run(m_, schema, rep)
     rep.run(S.s_r1_tags, schema, rep)
+    rep.run(S.s_r2_findable, schema, rep)
     rep.run(S.s_r4_contiguity, schema, rep)
     rep.run(S.s_r5_listkinds, schema, rep)
     rep.run(W.w_r2_leaf_predicate, project, rep)
